@@ -775,6 +775,26 @@ func (br *bodyRun) envAt(b *ssa.BasicBlock, idx int, st *State, phiOv map[*ssa.P
 		}
 		return TV{}, false
 	}
+	env.resolveAtLoop = func(name string) (TV, bool) {
+		// innermost dominating loop header with a phi for the variable
+		for blk := b; blk != nil; blk = blk.Idom() {
+			if _, isHead := br.loops[blk]; !isHead {
+				continue
+			}
+			for _, ins := range blk.Instrs {
+				phi, ok := ins.(*ssa.Phi)
+				if !ok {
+					break
+				}
+				if phi.Comment == name {
+					if v, ok := fc.vals[phi]; ok {
+						return TV{v, phi.Type()}, true
+					}
+				}
+			}
+		}
+		return TV{}, false
+	}
 	env.oldResolve = func(name string) (TV, bool) {
 		for _, p := range br.fn.Params {
 			if p.Name() == name {
@@ -912,7 +932,8 @@ func (br *bodyRun) resolveAt(b *ssa.BasicBlock, idx int, name string, st *State,
 			switch x := blk.Instrs[j].(type) {
 			case *ssa.DebugRef:
 				if o := x.Object(); o != nil && o.Name() == name {
-					if _, isVar := o.(*types.Var); !isVar {
+					if v, isVar := o.(*types.Var); !isVar || v.IsField() {
+						// (a selector x.f leaves a debug reference for the field f: not a variable)
 						continue
 					}
 					if x.IsAddr {
